@@ -913,6 +913,12 @@ def order_candidates(good, limit):
             if not o.get("extname") and any(p["name"] == o["name"] and (p["ver"] != o["ver"] or p["kind"] != o["kind"]) for p in prior):
                 out.append((c, i, o, x))
             prior.append(o)
+    # first the requests whose validity is not the same under every reading (names / property names outside the
+    # fully valid sets): that is where an earlier verdict could leak
+    def doubtful(t):
+        o = t[2]
+        return not (type_fully_valid(o["name"], o["ver"]) and all(prop_fully_valid(p[0]) for p in o["props"]))
+    out.sort(key=lambda t: not doubtful(t))
     return out[:limit]
 
 
@@ -1359,7 +1365,7 @@ def check(run):
                 stats["lookups"] += 1
                 stats["lookup_cls"] += x.startswith("cls:")
         run.violations += oracle_history(c, r, builtin)
-    oc = order_candidates(good, 400 if thorough else 60)
+    oc = order_candidates(good, 600 if thorough else 120)
     run.coverage["order_independence_checked"] = len(oc)
     run.violations += oracle_order(oc)
     run.coverage["history_distribution"] = stats
